@@ -710,3 +710,7 @@ impl SidecarIndexBuilderV1 {
         Ok(())
     }
 }
+
+#[cfg(kani)]
+#[path = "/verif/harness/ripd/continuity_seek_index.rs"]
+mod verif_kani;
